@@ -89,6 +89,10 @@ def main(chk):
                 args.append({'script': 'R := DS_1;', 'structures': [st], 'tables': {'DS_1': {'cols': ['Id_1', 'Me_1'], 'rows': rows}},
                              'kw': {'time_period_output_format': fmt}, 'form': 'csv' if (fi + k) % 2 else 'df'})
                 meta.append((i, form + ycls, fmt, k, exp, rows, 'measure'))
+                # the same, written by the engine to a file (output_folder): the file content is what is compared
+                args.append({'script': 'R <- DS_1;', 'structures': [st], 'tables': {'DS_1': {'cols': ['Id_1', 'Me_1'], 'rows': rows}},
+                             'kw': {'time_period_output_format': fmt}, 'form': 'df' if (fi + k) % 2 else 'csv', 'to_files': True})
+                meta.append((i, form + ycls, fmt, k, exp, rows, 'measure-file'))
             # the same texts as IDENTIFIER values (default format)
             args.append({'script': 'R := DS_1;', 'structures': [sti], 'tables': {'DS_1': {'cols': ['Id_1', 'Me_1'], 'rows': [[t, j] for j, t in rows]}}, 'kw': {}})
             meta.append((i, form + ycls, 'vtl', 0, exp, rows, 'identifier'))
@@ -111,9 +115,9 @@ def main(chk):
             chk.violation('not expressible accepted | %s' % key, 'format %s cannot express %s periods: a VTL error is required, engine returned values' % (fmt, i), {'example_input': rows[0][1]})
             continue
         tb = o['results']['R']
-        if role == 'measure':
+        if role.startswith('measure'):
             ci, cm = tb['cols'].index('Id_1'), tb['cols'].index('Me_1')
-            got = {r[ci]: r[cm] for r in tb['rows']}
+            got = {int(r[ci]): r[cm] for r in tb['rows']}
         else:
             ci, cm = tb['cols'].index('Me_1'), tb['cols'].index('Id_1')
             got = {r[ci]: r[cm] for r in tb['rows']}
@@ -125,6 +129,53 @@ def main(chk):
             distinct.add((i, form, fmt))
             if len(chk.cov['samples']) < 5:
                 chk.sample({'indicator': i, 'input_form': form, 'format': fmt, 'example': [rows[-1][1], exp[-1][k]]})
+    # every two documented spellings of one period are EQUAL values: spelling f against the next spelling of the same indicator
+    eargs, emeta = [], []
+    ste = bulk.struct('DS_1', [('Id_1', 'Integer', 'I'), ('Me_1', 'Time_Period', 'M'), ('Me_2', 'Time_Period', 'M')])
+    stj = [bulk.struct('DS_1', [('Id_1', 'Time_Period', 'I'), ('Me_1', 'Integer', 'M')]), bulk.struct('DS_2', [('Id_1', 'Time_Period', 'I'), ('Me_2', 'Integer', 'M')])]
+    for i, forms in FORMS.items():
+        if len(forms) < 2:
+            continue
+        ys = [y for y in years if y >= 1000]
+        for fi, form in enumerate(forms):
+            fj = (fi + 1) % len(forms)
+            rows = []
+            for y in ys:
+                for rec in P[(y, i)]:
+                    rows.append([len(rows), rec['inp'][fi], rec['inp'][fj]])
+            eargs.append({'script': 'R := DS_1[calc Me_3 := Me_1 = Me_2];', 'structures': [ste], 'tables': {'DS_1': {'cols': ['Id_1', 'Me_1', 'Me_2'], 'rows': rows}},
+                          'form': 'csv' if fi % 2 else 'df'})
+            emeta.append(('equal', i, form, forms[fj], rows))
+            eargs.append({'script': 'R := inner_join(DS_1, DS_2);', 'structures': stj,
+                          'tables': {'DS_1': {'cols': ['Id_1', 'Me_1'], 'rows': [[r[1], r[0]] for r in rows]}, 'DS_2': {'cols': ['Id_1', 'Me_2'], 'rows': [[r[2], r[0]] for r in rows]}},
+                          'form': 'df' if fi % 2 else 'csv'})
+            emeta.append(('join', i, form, forms[fj], rows))
+    eobs = k2.pmap('harness.bulk:run_tables', eargs, 10)
+    for (what, i, f1, f2, rows), o in zip(emeta, eobs):
+        chk.add('evaluations', len(rows))
+        key = '%s %s / %s' % (i, f1, f2)
+        if 'err' in o:
+            chk.violation('spellings %s %s | %s' % (what, 'raw' if o['err'].startswith('RAW') else 'rejected', key), '%s over two spellings of the same periods raised %s %s' % (what, o['err'], o['msg'][:200]),
+                          {'example': rows[0][1:]})
+            continue
+        tb = o['results']['R']
+        if what == 'equal':
+            ci, cm = tb['cols'].index('Id_1'), tb['cols'].index('Me_3')
+            bad = [rows[int(r[ci])][1:] for r in tb['rows'] if r[cm] is not True]
+            if len(tb['rows']) != len(rows):
+                bad = bad or [rows[0][1:]]
+        else:
+            c1, c2 = tb['cols'].index('Me_1'), tb['cols'].index('Me_2')
+            hit = {int(r[c1]) for r in tb['rows'] if r[c1] == r[c2]}
+            bad = [rows[j][1:] for j in range(len(rows)) if j not in hit]
+            if len(tb['rows']) != len(rows):
+                bad = bad or [rows[0][1:]]
+        if bad:
+            chk.violation('spellings %s | %s' % (what, key), 'two documented spellings of one period are different values for %s: e.g. %s vs %s (%d of %d)' % (
+                'the = operator' if what == 'equal' else 'the join on a Time_Period identifier', bad[0][0], bad[0][1], len(bad), len(rows)), {'first': bad[:5]})
+        else:
+            chk.add('traces_validated_against_impl', len(rows))
+            distinct.add((i, f1, f2, what))
     # the Python implementation on the same texts
     texts, tmeta = [], []
     for i, forms in FORMS.items():
@@ -157,7 +208,7 @@ def main(chk):
     chk.notes['binding_demo'] = 'expected texts come from TLC (VTLFormats!Render); a wrong rendering is reported per (indicator, input form, format) group'
     chk.cov['rule'] = ('TLC (GenFormats over VTLFormats + VTLCalendar) proves for every period of the requested years that every output form is a documented input form denoting the same '
                        'period (day periods through the calendar) and emits the text of EVERY documented input form and of the four renderings; the engine gets one table per '
-                       '(indicator, input form) as measure (CSV and DataFrame) under each output format and as identifier; outputs must equal the documented rendering, S/Q/W under '
+                       '(indicator, input form) as measure (CSV and DataFrame) under each output format - returned in memory AND written by the engine to files (output_folder) - and as identifier; each spelling is compared with = and joined as identifier against the next spelling of the same periods (must be equal values); outputs must equal the documented rendering, S/Q/W under '
                        'sdmx_gregorian must raise a VTL error; read-back is covered because every rendering is itself one of the input forms fed; the Python TimePeriodHandler / '
                        'check_time_period are run on the same texts and must parse and render identically. distinct = (indicator, input form, format) groups fully agreed')
     chk.assumptions += ['quick tier: boundary years and extreme years 1, 999, 1000, 9999; thorough: every year 1900-2100 plus a sample of 0001-9999']
